@@ -1650,6 +1650,20 @@ fn gen_long(_seed: u64, tier: Tier, em: &mut Emitter) {
     } else {
         &[63, 64, 65, 66, 70, 130]
     };
+    // blocks around the small-slice threshold of the standard sorts (20 / 21 elements)
+    for (k, n) in [5usize, 19, 20, 21, 22, 24, 33, 40, 50].into_iter().enumerate() {
+        let parts = [0usize, 2, 3][k % 3];
+        for (name, cost) in [("unsorted_equal_costs", (|i: usize| if i % 4 == 3 { 1 } else { 3 }) as fn(usize) -> u8),
+                             ("unsorted_three_costs", |i: usize| [3u8, 5, 1, 3, 3, 2][i % 6])] {
+            let unsorted: Vec<Value> = std::iter::once(src.clone())
+                .chain((0..n).map(|i| j_st(vec![op(i, TTT, cost(i))])))
+                .collect();
+            emit_xf_case(em, kv, &unsorted, parts, &["long", "apply_transform", name]);
+            if k % 2 == 0 {
+                emit_syn_case(em, kv, &unsorted, parts, &["long", "per_node", name]);
+            }
+        }
+    }
     for (k, &n) in sizes.iter().enumerate() {
         let parts = [0usize, 2, 3][k % 3];
         let per_node: Vec<Value> =
@@ -1667,6 +1681,16 @@ fn gen_long(_seed: u64, tier: Tier, em: &mut Emitter) {
             let safe: Vec<Value> =
                 std::iter::once(src.clone()).chain((0..n).map(|i| j_st(vec![op(i, TTT, 3)]))).collect();
             emit_xf_case(em, kv, &safe, parts, &["long", "apply_transform", "safe_equal_costs"]);
+        }
+        // all value-only, UNSORTED, with many equal costs (every fourth operator is cheap): the
+        // reorder pass must move the cheap ones to the front and keep every other relative order
+        // (a stable sort - blocks of more than 20 operators expose an unstable one)
+        {
+            let unsorted: Vec<Value> = std::iter::once(src.clone())
+                .chain((0..n).map(|i| j_st(vec![op(i, TTT, if i % 4 == 3 { 1 } else { 3 })])))
+                .collect();
+            emit_xf_case(em, kv, &unsorted, parts, &["long", "apply_transform", "unsorted_equal_costs"]);
+            emit_syn_case(em, kv, &unsorted, parts, &["long", "per_node", "unsorted_equal_costs"]);
         }
         // a real program of n map steps through the step language
         if n != 64 && n != 66 || tier == Tier::Thorough {
